@@ -70,6 +70,8 @@ type histProgram struct {
 	Steps  []histStep `json:"steps"`
 	Timing bool       `json:"timing"`
 	Magic  bool       `json:"magic,omitempty"` // timing platform built WithMagicMemoryCopy (copy-only programs)
+	GPU    string     `json:"gpu,omitempty"`   // timing: "" = r9nano, "mi300a"
+	Only   []string   `json:"-"`               // run on these placement classes only (big programs on slow platforms)
 }
 
 type histPlacement struct {
@@ -108,6 +110,7 @@ func histPlacements(timing, thorough bool) []histPlacement {
 		{Name: "distributed-1-2-launch-on-1-2", Class: "distributed-buffers", NumGPUs: 2, Sites: []int{1, 2}, BufGPU: []int{1}, Spread: []int{1, 2}, QueuesUp: true, ShareCO: true, HostSplit: true},
 		{Name: "unified-1-2", Class: "unified", NumGPUs: 2, Unified: []int{1, 2}},
 		{Name: "unified-1-2-3", Class: "unified", NumGPUs: 3, Unified: []int{1, 2, 3}},
+		{Name: "buffers-on-gpu2-launch-on-1-then-2", Class: "cross-gpu-chain", NumGPUs: 2, Sites: []int{1, 2}, BufGPU: []int{2}},
 	}
 	if !timing || thorough {
 		ps = append(ps,
@@ -117,6 +120,28 @@ func histPlacements(timing, thorough bool) []histPlacement {
 			histPlacement{Name: "pages-remapped-over-4-launch-on-1-2-3-4", Class: "remapped-pages", NumGPUs: 4, Sites: []int{1, 2, 3, 4}, BufGPU: []int{1, 3}, RemapSeed: 0x9e3779b97f4a7c15},
 			histPlacement{Name: "unified-1-2-3-4", Class: "unified", NumGPUs: 4, Unified: []int{1, 2, 3, 4}},
 			histPlacement{Name: "unified-2-3-of-4", Class: "unified", NumGPUs: 4, Unified: []int{2, 3}},
+		)
+	}
+	return ps
+}
+
+// histPlacementsMI300A: the mi300a timing platform is slower to build and
+// run, so it gets two GPUs and the placements that make kernels of one GPU
+// touch memory of the other in both directions.
+func histPlacementsMI300A(thorough bool) []histPlacement {
+	ps := []histPlacement{
+		{Name: "1gpu", Class: "single-gpu", NumGPUs: 1, Sites: []int{1}, BufGPU: []int{1}},
+		{Name: "buffers-on-gpu2-launch-on-gpu1", Class: "remote-buffers", NumGPUs: 2, Sites: []int{1}, BufGPU: []int{2}},
+		{Name: "buffers-on-gpu1-launch-on-gpu2", Class: "remote-buffers", NumGPUs: 2, Sites: []int{2}, BufGPU: []int{1}},
+		{Name: "buffers-on-gpu2-launch-on-1-then-2", Class: "cross-gpu-chain", NumGPUs: 2, Sites: []int{1, 2}, BufGPU: []int{2}},
+		{Name: "buffers-on-gpu1-launch-on-2-then-1", Class: "cross-gpu-chain", NumGPUs: 2, Sites: []int{2, 1}, BufGPU: []int{1}},
+		{Name: "distributed-1-2-launch-on-1-2", Class: "distributed-buffers", NumGPUs: 2, Sites: []int{1, 2}, BufGPU: []int{1}, Spread: []int{1, 2}, QueuesUp: true, ShareCO: true, HostSplit: true},
+		{Name: "unified-1-2", Class: "unified", NumGPUs: 2, Unified: []int{1, 2}},
+	}
+	if thorough {
+		ps = append(ps,
+			histPlacement{Name: "distributed-1-2-3-4-launch-on-4-1-3", Class: "distributed-buffers", NumGPUs: 4, Sites: []int{4, 1, 3}, BufGPU: []int{2}, Spread: []int{1, 2, 3, 4}, QueuesUp: true, ShareCO: true, HostSplit: true},
+			histPlacement{Name: "unified-1-2-3-4", Class: "unified", NumGPUs: 4, Unified: []int{1, 2, 3, 4}},
 		)
 	}
 	return ps
@@ -387,6 +412,7 @@ type histGen struct {
 	sites  int
 	maxN   int
 	maxWGs int
+	chains bool // kernels may read what a kernel has written with no host copy in between
 }
 
 func (g *histGen) add(s histStep) { g.p.Steps = append(g.p.Steps, s) }
@@ -437,7 +463,7 @@ func (g *histGen) d2h(b, off, n int) {
 // written since the last host copy; otherwise a read-back of that buffer (an
 // observation, and on the DMA path a flush of every GPU) is issued first.
 func (g *histGen) beforeKernelRead(b int) {
-	if g.kdirty[b] {
+	if g.kdirty[b] && !g.chains {
 		off, n := 0, g.p.Bufs[b]
 		if g.r.Chance(1, 3) {
 			off, n = g.rangeIn(b)
@@ -625,6 +651,12 @@ func (g *histGen) motif() {
 }
 
 func genHistProgram(r *vlib.PRNG, id string, timing bool) histProgram {
+	return genHistProgramSized(r, id, timing, 0, 0, nil)
+}
+
+// genHistProgramSized: maxN / maxWGs / pool override the size classes (small
+// programs for the slow mi300a platform).
+func genHistProgramSized(r *vlib.PRNG, id string, timing bool, maxN, maxWGs int, sizes []int) histProgram {
 	p := histProgram{ID: id, Timing: timing}
 	g := &histGen{r: r, p: &p, sites: 1 + r.Intn(3)}
 	nb := 2 + r.Intn(2)
@@ -636,9 +668,12 @@ func genHistProgram(r *vlib.PRNG, id string, timing bool) histProgram {
 		g.maxN, g.maxWGs = 20000, 1500
 		pool = []int{1, 63, 700, 1024, 1025, 2048, 3000, 4096, 4160, 5000, 8256, 12000, 16385}
 	}
+	if sizes != nil {
+		g.maxN, g.maxWGs, pool = maxN, maxWGs, sizes
+	}
 	for b := 0; b < nb; b++ {
 		n := pool[r.Intn(len(pool))]
-		if b < 2 && timing && n < 4096 {
+		if b < 2 && timing && n < 4096 && sizes == nil {
 			n = []int{4096, 4160, 8256}[r.Intn(3)] // two buffers big enough for 64 work-groups
 		}
 		p.Bufs = append(p.Bufs, n)
@@ -673,6 +708,146 @@ func genHistProgram(r *vlib.PRNG, id string, timing bool) histProgram {
 		g.d2h(b, 0, p.Bufs[b])
 	}
 	return p
+}
+
+// genChainProgram: kernels form producer -> consumer chains across launch
+// sites with every launch drained and NO host copy between them (legal since
+// the command processor invalidates the L1 caches at every launch: a remote
+// access is served by the owner's L2, the single home of a line, so a kernel
+// must see what an earlier kernel on another GPU wrote).
+func genChainProgram(r *vlib.PRNG, id string, timing bool, gpuType string) histProgram {
+	p := histProgram{ID: id, Timing: timing, GPU: gpuType}
+	g := &histGen{r: r, p: &p, sites: 2, chains: true}
+	g.maxN, g.maxWGs = 20000, 1500
+	pool := []int{700, 1024, 2048, 3000, 4096, 4160, 8256}
+	if timing {
+		g.maxN, g.maxWGs = 8320, 300
+		if gpuType == "mi300a" {
+			pool = []int{700, 1024, 2048, 3000}
+			g.maxN, g.maxWGs = 3000, 60
+		}
+	}
+	nb := 3
+	for b := 0; b < nb; b++ {
+		p.Bufs = append(p.Bufs, pool[r.Intn(len(pool))])
+	}
+	g.kdirty = make([]bool, nb)
+	for _, b := range r.Perm(nb) {
+		g.h2d(b, 0, p.Bufs[b])
+	}
+	rounds := 2 + r.Intn(2)
+	for i := 0; i < rounds; i++ {
+		// a chain of 2-4 kernels at alternating sites, each reading what the previous wrote
+		first := r.Intn(2)
+		length := 2 + r.Intn(3)
+		prev := -1
+		for k := 0; k < length; k++ {
+			site := (first + k) % 2
+			st := histStep{Site: site, Op: kern.Op(r.Intn(3)), C: 1 + 2*uint32(r.Intn(5000))}
+			if prev < 0 || r.Chance(1, 3) {
+				// in place on a buffer (the first link reads uploaded data)
+				st.Kind = "inplace"
+				st.Buf = prev
+				if prev < 0 {
+					st.Buf = r.Intn(nb)
+				}
+				st.N = g.kernelN(p.Bufs[st.Buf], false)
+				if k > 0 {
+					st.N = p.Bufs[st.Buf]
+					if st.N > g.maxN {
+						st.N = g.maxN
+					}
+				}
+				st.Off = r.Intn(p.Bufs[st.Buf] - st.N + 1)
+			} else {
+				st.Kind = "gather"
+				st.Src = prev
+				st.Buf = (prev + 1 + r.Intn(nb-1)) % nb
+				ssize, dsize := p.Bufs[st.Src], p.Bufs[st.Buf]
+				st.N = g.kernelN(dsize, false)
+				st.Off = r.Intn(dsize - st.N + 1)
+				st.Mask = g.pickMask(ssize)
+				span := st.N
+				if st.Mask != 0xFFFFFFFF && int(st.Mask)+1 < span {
+					span = int(st.Mask) + 1
+				}
+				for span > ssize {
+					st.Mask = g.pickMask(ssize)
+					span = st.N
+					if st.Mask != 0xFFFFFFFF && int(st.Mask)+1 < span {
+						span = int(st.Mask) + 1
+					}
+				}
+				st.SrcOff = r.Intn(ssize - span + 1)
+			}
+			g.add(st)
+			g.kdirty[st.Buf] = true
+			prev = st.Buf
+		}
+		g.d2h(prev, 0, p.Bufs[prev])
+		if r.Bool() {
+			b := r.Intn(nb)
+			off, n := g.rangeIn(b)
+			g.h2d(b, off, n)
+		}
+	}
+	for _, b := range r.Perm(nb) {
+		g.d2h(b, 0, p.Bufs[b])
+	}
+	return p
+}
+
+// canonicalChainPrograms: seed-independent producer -> consumer chains.
+func canonicalChainPrograms() []histProgram {
+	all := uint32(0xFFFFFFFF)
+	mk := func(id string, timing bool, gpu string) histProgram {
+		return histProgram{ID: id, Timing: timing, GPU: gpu, Bufs: []int{2048, 2048, 2048}, Steps: []histStep{
+			{Kind: "h2d", Buf: 0, Off: 0, N: 2048, Data: 51},
+			{Kind: "h2d", Buf: 1, Off: 0, N: 2048, Data: 52},
+			{Kind: "h2d", Buf: 2, Off: 0, N: 2048, Data: 53},
+			// A = B + c at site 0, D = A * c at site 1 (the shape of "A = B + C on one GPU, D = A + B on the other")
+			{Kind: "gather", Src: 1, Buf: 0, Off: 0, N: 2048, Mask: all, Op: kern.OpAdd, C: 3, Site: 0},
+			{Kind: "gather", Src: 0, Buf: 2, Off: 0, N: 2048, Mask: all, Op: kern.OpMul, C: 5, Site: 1},
+			{Kind: "d2h", Buf: 2, Off: 0, N: 2048},
+			// the other way round, in place then windowed
+			{Kind: "inplace", Buf: 1, Off: 0, N: 2048, Op: kern.OpXor, C: 0x55aa, Site: 1},
+			{Kind: "gather", Src: 1, Buf: 0, Off: 64, N: 1920, Mask: 255, SrcOff: 300, Op: kern.OpAdd, C: 9, Site: 0},
+			{Kind: "inplace", Buf: 0, Off: 0, N: 2048, Op: kern.OpAdd, C: 1, Site: 1},
+			{Kind: "d2h", Buf: 0, Off: 0, N: 2048},
+			{Kind: "d2h", Buf: 1, Off: 0, N: 2048},
+		}}
+	}
+	// on a unified device: 129 work-groups of the r9nano (2 x 64 CUs) resp. 241 of the mi300a (2 x 120 CUs) put the tail on the second GPU;
+	// the consumer reads the producer's output through a 2048-element window, so the second GPU reads what the first wrote
+	uni := func(id string, timing bool, gpu string, n int) histProgram {
+		return histProgram{ID: id, Timing: timing, GPU: gpu, Bufs: []int{n, n}, Steps: []histStep{
+			{Kind: "h2d", Buf: 0, Off: 0, N: n, Data: 61},
+			{Kind: "h2d", Buf: 1, Off: 0, N: n, Data: 62},
+			{Kind: "inplace", Buf: 0, Off: 0, N: n, Op: kern.OpAdd, C: 7, Site: 0},
+			{Kind: "gather", Src: 0, Buf: 1, Off: 0, N: n, Mask: 2047, Op: kern.OpMul, C: 3, Site: 0},
+			{Kind: "gather", Src: 1, Buf: 0, Off: 0, N: n, Mask: 2047, SrcOff: n - 2048, Op: kern.OpAdd, C: 11, Site: 0},
+			{Kind: "d2h", Buf: 0, Off: 0, N: n},
+			{Kind: "d2h", Buf: 1, Off: 0, N: n},
+		}}
+	}
+	return []histProgram{
+		mk("canon-chain-emu", false, ""), mk("canon-chain-timing", true, ""), mk("canon-chain-mi300a", true, "mi300a"),
+		uni("canon-chain-unified-tail-emu", false, "", 64*128+8), uni("canon-chain-unified-tail-timing", true, "", 64*128+8),
+		func() histProgram {
+			p := uni("canon-chain-unified-tail-mi300a", true, "mi300a", 64*240+8)
+			p.Only = []string{"single-gpu", "unified"}
+			return p
+		}(),
+	}
+}
+
+func containsStr(l []string, x string) bool {
+	for _, y := range l {
+		if y == x {
+			return true
+		}
+	}
+	return false
 }
 
 // genCopyOnlyProgram: uploads and read-backs only (no kernels); used on the
@@ -818,7 +993,11 @@ func histChild() {
 	}
 	rec := vlib.ChildRec()
 	sim.GetIDGenerator()
-	p := plat.Build(plat.Config{Timing: prog.Timing, NumGPUs: pl.NumGPUs, MagicCopy: prog.Magic})
+	p := plat.Build(plat.Config{Timing: prog.Timing, GPUType: prog.GPU, NumGPUs: pl.NumGPUs, MagicCopy: prog.Magic})
+	var rdmaCnt *rdmaCounter
+	if prog.Timing {
+		rdmaCnt = watchRDMA(p)
+	}
 	d := p.Driver
 	d.Run()
 	ctx := d.Init()
@@ -998,6 +1177,9 @@ func histChild() {
 			panic("harness: unknown step kind " + st.Kind)
 		}
 	}
+	if rdmaCnt != nil {
+		rec.Note("rdma", rdmaCnt.snapshot())
+	}
 	rec.Note("done", true)
 	os.Exit(0)
 }
@@ -1010,17 +1192,18 @@ type histJob struct {
 	pl     histPlacement
 	reads  map[int][]uint32
 	owners [][]int
+	rdma   map[int]int64 // forwarded memory requests per GPU (timing)
 	done   bool
 	fail   string
 	dur    time.Duration
 }
 
 // readerGPU is the GPU that executes work-item g of a kernel step.
-func readerGPU(pl histPlacement, st histStep, g int) int {
+func readerGPU(pl histPlacement, st histStep, g int, cus int) int {
 	if st.Kind == "geom" {
 		geo := *st.Geo
 		if len(pl.Unified) > 0 {
-			return pl.Unified[geo.wgOfElement(g)/unifiedShare(geo.totalWGs(), len(pl.Unified))]
+			return pl.Unified[geo.wgOfElement(g)/unifiedShare(geo.totalWGs(), len(pl.Unified), cus)]
 		}
 		if pl.HostSplit {
 			gpus := pl.splitGPUs()
@@ -1033,7 +1216,7 @@ func readerGPU(pl histPlacement, st histStep, g int) int {
 	}
 	// Driver.distributeWGToGPUs: consecutive shares of 64*ceil(#wg / #CUs) work-groups (64 CUs per GPU)
 	wgs := (st.N + 63) / 64
-	per := 64 * ((wgs-1)/(64*len(pl.Unified)) + 1)
+	per := cus * ((wgs-1)/(cus*len(pl.Unified)) + 1)
 	return pl.Unified[(g/64)/per]
 }
 
@@ -1070,7 +1253,7 @@ func exercised(j *histJob) (remoteReads, rereads int) {
 			remote, reread := false, false
 			sb := st.srcBuf()
 			for g := 0; g < st.N; g++ {
-				gpu := readerGPU(j.pl, st, g)
+				gpu := readerGPU(j.pl, st, g, cusOf(j.prog.GPU))
 				e := st.srcIndex(g)
 				if ownerOf(sb, e) == gpu {
 					continue
@@ -1097,6 +1280,68 @@ func exercised(j *histJob) (remoteReads, rereads int) {
 	return remoteReads, rereads
 }
 
+// crossGPU replays the program against the page layout: which GPU accessed
+// pages of which other GPU (needs[from][to]), and how many kernels consumed
+// data that a kernel on ANOTHER GPU produced with no host copy in between
+// (chains, keyed "producer>consumer"); remoteProduced counts those whose
+// producer also was not the owner of the page (the data had to travel to the
+// owner's L2 to be visible).
+func crossGPU(j *histJob) (needs map[int]map[int]bool, chains map[string]int, remoteProduced int) {
+	needs = map[int]map[int]bool{}
+	chains = map[string]int{}
+	cus := cusOf(j.prog.GPU)
+	lastKW := make([][]int, len(j.prog.Bufs))
+	for b, n := range j.prog.Bufs {
+		lastKW[b] = make([]int, n)
+	}
+	need := func(from, to int) {
+		if from == to {
+			return
+		}
+		if needs[from] == nil {
+			needs[from] = map[int]bool{}
+		}
+		needs[from][to] = true
+	}
+	for _, st := range j.prog.Steps {
+		if !st.isKernel() {
+			for b := range lastKW {
+				for e := range lastKW[b] {
+					lastKW[b][e] = 0
+				}
+			}
+			continue
+		}
+		sb := st.srcBuf()
+		seen := map[string]bool{}
+		remote := false
+		gpus := make([]int, st.N)
+		for g := 0; g < st.N; g++ {
+			gpu := readerGPU(j.pl, st, g, cus)
+			gpus[g] = gpu
+			se := st.srcIndex(g)
+			need(gpu, j.owners[sb][se/histPage])
+			need(gpu, j.owners[st.Buf][(st.Off+g)/histPage])
+			if w := lastKW[sb][se]; w != 0 && w != gpu {
+				seen[fmt.Sprintf("%d>%d", w, gpu)] = true
+				if j.owners[sb][se/histPage] != w {
+					remote = true
+				}
+			}
+		}
+		for g := 0; g < st.N; g++ {
+			lastKW[st.Buf][st.Off+g] = gpus[g]
+		}
+		for k := range seen {
+			chains[k]++
+		}
+		if remote {
+			remoteProduced++
+		}
+	}
+	return needs, chains, remoteProduced
+}
+
 func runHistory(c *vlib.Check) {
 	if err := checkGatherKernel(); err != nil {
 		c.Inconclusive("harness self-check: " + err.Error())
@@ -1121,9 +1366,38 @@ func runHistory(c *vlib.Check) {
 	for i := 0; i < nMagic; i++ {
 		progs = append(progs, genCopyOnlyProgram(base.ForkN("magic", i), fmt.Sprintf("timing-magic-copy-only-%d", i)))
 	}
+	// producer -> consumer chains across GPUs (no host copy between kernels), on all three platforms
+	progs = append(progs, canonicalChainPrograms()...)
+	nChEmu, nChTim, nChMI := c.N(6, 60), c.N(2, 16), c.N(1, 5)
+	for i := 0; i < nChEmu; i++ {
+		progs = append(progs, genChainProgram(base.ForkN("chain-emu", i), fmt.Sprintf("chain-emu-%d", i), false, ""))
+	}
+	for i := 0; i < nChTim; i++ {
+		p := genChainProgram(base.ForkN("chain-timing", i), fmt.Sprintf("chain-timing-%d", i), true, "")
+		if !c.Thorough() {
+			p.Only = []string{"single-gpu", "cross-gpu-chain", "distributed-buffers", "unified"}
+		}
+		progs = append(progs, p)
+	}
+	for i := 0; i < nChMI; i++ {
+		progs = append(progs, genChainProgram(base.ForkN("chain-mi300a", i), fmt.Sprintf("chain-mi300a-%d", i), true, "mi300a"))
+	}
+	// one ordinary history program and the geometry history on mi300a
+	progs = append(progs, func() histProgram {
+		p := genHistProgramSized(base.ForkN("mi300a", 0), "history-mi300a-0", true, 3000, 60, []int{1024, 2048, 3000})
+		p.GPU = "mi300a"
+		return p
+	}())
 	var jobs []*histJob
 	for _, pg := range progs {
-		for _, pl := range histPlacements(pg.Timing, c.Thorough()) {
+		pls := histPlacements(pg.Timing, c.Thorough())
+		if pg.GPU == "mi300a" {
+			pls = histPlacementsMI300A(c.Thorough())
+		}
+		for _, pl := range pls {
+			if len(pg.Only) > 0 && !containsStr(pg.Only, pl.Class) {
+				continue
+			}
 			if pg.Timing && !pg.Magic && !c.Thorough() && pl.Class == "local-buffers" && !strings.HasPrefix(pg.ID, "canon") {
 				continue // quick tier: the all-local control placement runs the canonical timing programs only
 			}
@@ -1140,9 +1414,15 @@ func runHistory(c *vlib.Check) {
 		wa, wb := 0, 0
 		if ja.prog.Timing && !ja.prog.Magic {
 			wa = ja.pl.NumGPUs
+			if ja.prog.GPU == "mi300a" {
+				wa += 10
+			}
 		}
 		if jb.prog.Timing && !jb.prog.Magic {
 			wb = jb.pl.NumGPUs
+			if jb.prog.GPU == "mi300a" {
+				wb += 10
+			}
 		}
 		return wa > wb
 	})
@@ -1175,6 +1455,9 @@ func runHistory(c *vlib.Check) {
 				}
 			}
 		}
+		if r := notes["rdma"]; len(r) > 0 {
+			j.rdma = rdmaFromNote(r[0])
+		}
 		if _, ok := notes["done"]; ok {
 			j.done = true
 		} else if res.TimedOut {
@@ -1197,13 +1480,7 @@ func runHistory(c *vlib.Check) {
 	}
 	for _, pg := range progs {
 		sh := runShadow(pg)
-		mode := "emu"
-		if pg.Timing {
-			mode = "timing"
-			if pg.Magic {
-				mode = "timing-magic-copy"
-			}
-		}
+		mode := modeOf(pg.Timing, pg.GPU, pg.Magic)
 		kernels, reuploads := 0, 0
 		seenKernel := false
 		for _, st := range pg.Steps {
@@ -1288,6 +1565,16 @@ func runHistory(c *vlib.Check) {
 						wit["single_gpu_run_value"] = sg[first]
 					}
 				}
+				if pg.Timing && !pg.Magic && len(j.owners) == len(pg.Bufs) && j.rdma != nil {
+					needs, _, _ := crossGPU(j)
+					for from, tos := range needs {
+						if len(tos) > 0 && j.rdma[from] == 0 {
+							wit["rdma_forwarded_requests_per_gpu"] = j.rdma
+							c.Violation(fmt.Sprintf("C18|e2e-history|%s|remote-access-not-forwarded", mode),
+								fmt.Sprintf("history program %s on %s/%s: kernels on GPU %d access pages owned by other GPUs, its RDMA engine forwarded no request at all, and a read-back differs from the shadow (forwarded requests per GPU: %v)", pg.ID, mode, j.pl.Name, from, j.rdma), wit)
+						}
+					}
+				}
 				c.Violation(fmt.Sprintf("C18|e2e-history|%s|%s|read-back-differs-from-shadow|%s", mode, j.pl.Class, class),
 					fmt.Sprintf("history program %s on %s/%s: read-back step %d (buffer %d, elements %d..%d) differs from the program-order shadow in %d elements, first at element %d: got 0x%08x, expected 0x%08x; %s",
 						pg.ID, mode, j.pl.Name, s, st.Buf, st.Off, st.Off+st.N-1, bad, st.Off+first, got[first], want[first], detail), wit)
@@ -1319,6 +1606,38 @@ func runHistory(c *vlib.Check) {
 			}
 			c.Count("history_runs_equal_to_shadow", 1)
 			if len(j.owners) == len(pg.Bufs) {
+				needs, chains, remoteProduced := crossGPU(j)
+				if j.pl.Name != "1gpu" {
+					for k, n := range chains {
+						var w, r int
+						fmt.Sscanf(k, "%d>%d", &w, &r)
+						dir := "lower-to-higher-gpu"
+						if w > r {
+							dir = "higher-to-lower-gpu"
+						}
+						c.Count("history_kernels_consuming_another_gpus_kernel_output|"+mode+"|"+dir, int64(n))
+					}
+					c.Count("history_kernels_consuming_output_written_into_remote_memory|"+mode, int64(remoteProduced))
+					if pg.GPU == "mi300a" {
+						c.Count("history_mi300a_multi_gpu_runs", 1)
+					}
+				}
+				if j.rdma != nil && !pg.Magic {
+					for gpu, n := range j.rdma {
+						if j.pl.NumGPUs > 1 {
+							c.Count(fmt.Sprintf("rdma_forwarded_requests|%s|from-gpu%d", mode, gpu), n)
+						}
+					}
+					for from, tos := range needs {
+						if len(tos) > 0 {
+							c.Count("history_runs_with_a_gpu_accessing_remote_pages|"+mode, 1)
+							if j.rdma[from] == 0 {
+								// alone this is only a counter (see the key remote-access-not-forwarded)
+								c.Count("history_gpus_with_remote_accesses_but_nothing_forwarded|"+mode, 1)
+							}
+						}
+					}
+				}
 				remote, rereads := exercised(j)
 				c.Count("history_kernels_reading_remote_pages|"+mode, int64(remote))
 				c.Count("history_rereads_after_reupload_not_touching_reader|"+mode, int64(rereads))
@@ -1335,7 +1654,7 @@ func runHistory(c *vlib.Check) {
 						c.Count("geom_launches_with_partial_work_groups", 1)
 					}
 					if m := len(j.pl.Unified); m > 0 {
-						rowsLt, wraps, idle := st.Geo.unifiedFacts(m)
+						rowsLt, wraps, idle := st.Geo.unifiedFacts(m, cusOf(pg.GPU))
 						c.Count("geom_unified_launches|"+mode, 1)
 						c.Distinct("geom_unified_members", fmt.Sprint(m))
 						if rowsLt {
